@@ -12,8 +12,22 @@ ASSUMES = ASSUMES_COMMON
 
 
 def configs(tier, seed):
-    return batch_configs(tier, seed, 40, 400, 12 if tier == "quick" else 25, OPTS, SCHEDULERS)
+    # plus the "deep" condition() family of C12: branches are nested transactions of their enclosing body, so
+    # "a nested body / its callees run only with the enclosing body" is this property as well
+    from . import c12
+
+    return c12.deep_configs(tier) + batch_configs(tier, seed, 40, 400, 12 if tier == "quick" else 25, OPTS, SCHEDULERS)
 
 
 def run(cfg, ctx):
+    if cfg.get("deep"):
+        from . import c12
+
+        return c12.run_deep(cfg, ctx)
     run_batch(cfg, ctx, {PROP})
+
+
+def classify(v):
+    from . import c12
+
+    return c12.classify(v)
